@@ -166,8 +166,11 @@ type bodyStats struct {
 	mu          sync.Mutex
 	obtained    bool
 	closes      int
-	term        bool // the underlying stream returned io.EOF or an error
+	term        bool // the underlying stream reached its own end: io.EOF or a fault of the stream itself
 	termAtClose bool
+	cut         string // a Read failed because the request context was done: env (caller's cancellation / deadline) | self
+	cutAtClose  string
+	envDone     func() bool // the caller cancelled, or the effective deadline has passed
 	unread      int
 	total       int
 	read        int
@@ -176,16 +179,34 @@ type bodyStats struct {
 func (b *bodyStats) onRead(n int, err error) {
 	b.mu.Lock()
 	b.read += n
-	if err != nil {
+	switch {
+	case err == nil:
+	case isCtxErr(err):
+		// like net/http's bodies: a pending Read is aborted once the request context is done. Whose doing was it?
+		if b.cut == "" {
+			if errors.Is(err, context.DeadlineExceeded) || (b.envDone != nil && b.envDone()) {
+				b.cut = "env"
+			} else {
+				b.cut = "self" // nobody outside the call ended the context: the call cancelled it itself
+			}
+		}
+	default:
 		b.term = true
 	}
 	b.mu.Unlock()
+}
+
+func isCtxErr(err error) bool {
+	return errors.Is(err, context.Canceled) || errors.Is(err, context.DeadlineExceeded) ||
+		strings.Contains(err.Error(), "request canceled") || strings.Contains(err.Error(), "context canceled") ||
+		strings.Contains(err.Error(), "context deadline exceeded")
 }
 
 func (b *bodyStats) onClose() {
 	b.mu.Lock()
 	if b.closes == 0 {
 		b.termAtClose = b.term
+		b.cutAtClose = b.cut
 		b.unread = b.total - b.read
 	}
 	b.closes++
@@ -549,6 +570,10 @@ func runCallOnce(d M) (res M) {
 		dl = ctxMs
 	}
 	e.stallCap = time.Duration(dl+stallCapMs) * time.Millisecond
+	effMs := dl
+	e.st.envDone = func() bool {
+		return atomic.LoadInt32(&e.cancelMs) >= 0 || (!e.t0.IsZero() && time.Since(e.t0) >= time.Duration(effMs)*time.Millisecond)
+	}
 	timeout := time.Duration(timeoutMs) * time.Millisecond
 	var parent context.Context
 	var cancel context.CancelFunc
@@ -779,7 +804,11 @@ func runCallOnce(d M) (res M) {
 	st := struct {
 		obtained, termAtClose bool
 		closes, unread        int
-	}{e.st.obtained, e.st.termAtClose, e.st.closes, e.st.unread}
+		cut                   string
+	}{e.st.obtained, e.st.termAtClose, e.st.closes, e.st.unread, e.st.cutAtClose}
+	if st.cut == "" {
+		st.cut = "none"
+	}
 	e.st.mu.Unlock()
 	e.mu.Lock()
 	consumed, intact := e.consumed, e.intact
@@ -795,7 +824,7 @@ func runCallOnce(d M) (res M) {
 	return M{
 		"result": result, "err_class": classify(err), "elapsed_ms": int(elapsed / time.Millisecond), "deadline_ms": dl, "cancel_ms": cm,
 		"resp_obtained": st.obtained, "files_closed": filesClosed, "close_counts": closes,
-		"resp_closes": st.closes, "reader_saw_end": e.sawEnd, "term_before_close": st.termAtClose,
+		"resp_closes": st.closes, "reader_saw_end": e.sawEnd, "term_before_close": st.termAtClose, "drain_cut": st.cut,
 		"unread_at_close": st.unread, "leaked": len(leaked), "leaked_frames": leaked, "src_hit": hit,
 		"req_consumed": consumed, "upload_intact": intact, "panic": panicked,
 	}
